@@ -115,3 +115,9 @@ Proof. intros H. rewrite (gat_is_abs _ _ _ _ _ H). eexists. split; [reflexivity|
 
 Lemma wf_meta_small st now k : 1 <= len k <= 250 -> wf_key st now k -> meta_small st now k.
 Proof. intros Hk W me Hm. destruct (wf_live st now k me Hk W Hm) as (Hn & _). exact Hn. Qed.
+
+Lemma read_is_abs st now k :
+  meta_small st now k ->
+  (forall opq qt, read_get st now k opq qt = HVals [owed_item st now k opq qt] None) /\
+  (forall ttl opq, read_gat st now k ttl opq = HVals [owed_item st now k opq false] None).
+Proof. intros H. split; intros; [apply get_is_abs|apply gat_is_abs]; exact H. Qed.
